@@ -154,7 +154,7 @@ def lean_prepare(prop_module: str, theorems: list[str]) -> BuildStatus:
     return st
 
 
-def run_lean(lines: list[str], jobs: int = 8, timeout: int = 3600) -> list[str]:
+def run_lean(lines: list[str], jobs: int = 8, timeout: int = 3600, main: str = "Driver/Main.lean") -> list[str]:
     """pipe protocol lines through the Lean driver; returns one output line per input line"""
     if not lines:
         return []
@@ -165,7 +165,7 @@ def run_lean(lines: list[str], jobs: int = 8, timeout: int = 3600) -> list[str]:
     chunks = [lines[i::jobs] for i in range(jobs)]
 
     def one(chunk):
-        p = subprocess.run(["lake", "env", "lean", "--run", "Driver/Main.lean"], cwd=LEAN_DIR,
+        p = subprocess.run(["lake", "env", "lean", "--run", main], cwd=LEAN_DIR,
                            input="\n".join(chunk) + "\n", capture_output=True, text=True, timeout=timeout)
         outs = p.stdout.splitlines()
         if p.returncode != 0 or len(outs) != len(chunk):
